@@ -83,6 +83,9 @@ pub fn run_case(case: &Case) -> Outcome {
     o.label(cp.p.class());
     o.set("dt_max", dt_max);
     o.set("tol", tol);
+    if dt_max > 1.0 {
+        o.label("steps-above-one");
+    }
     let probe = Rc::new(RefCell::new(Probe { budget: DERIV_BUDGET * 4, ..Default::default() }));
     let rhs = |t: f64, y: &[f64], out: &mut [f64]| cp.f(t, y, out);
     let run = run_real(solver, false, cp.dim, &cfg.calls(), &y0, probe.clone(), &rhs, MAX_POINTS, 0);
@@ -139,6 +142,18 @@ pub fn run_case(case: &Case) -> Outcome {
 fn strategy(_t: Tier) -> BoxedStrategy<Case> {
     (proptest::sample::select(&ADAPTIVE[..]), problem_any(), prop_oneof![1 => Just(0.0), 3 => gen::fl(-2.0, 2.0)], gen::logu(-10.0, -3.0), gen::fl(0.3, 1.0), gen::fl(1.0, 4.0), (prop_oneof![3 => Just(0.0), 1 => gen::fl(0.0, 2.0), 1 => gen::fl(2.0, 3.0)], prop_oneof![3 => Just(0.0), 1 => gen::fl(-3.0, -1.0)]))
         .prop_map(|(solver, (problem, y0), t0, tol, frac, tlen, (amp_exp, min_exp))| Case { solver, problem, y0, t0, tol, frac, tlen, amp_exp, min_exp })
+        // one case in six on a slow time axis: the problem stretched by 10^[1,3.3] (all rates divided by it), start and
+        // length stretched with it - maximal steps far above 1
+        .prop_flat_map(|case| (Just(case), prop_oneof![5 => Just(0.0), 1 => gen::fl(1.0, 3.3)]))
+        .prop_map(|(mut case, e)| {
+            if e > 0.0 {
+                let s = 10f64.powf(e);
+                case.problem = scale_time(case.problem, s);
+                case.t0 *= s;
+                case.tlen *= s;
+            }
+            case
+        })
         .boxed()
 }
 
@@ -152,7 +167,7 @@ pub fn run(opts: &Opts) -> i32 {
     spec.cases = opts.tier.pick(3_000, 60_000);
     spec.essential = vec![("estimator-limited", 0.15), ("generic", 0.1), ("lin", 0.2), ("bdf6", 0.1), ("rk23", 0.1)];
     spec.max_discard_frac = 0.1;
-    spec.rule = format!("generated: six adaptive solvers x problem family P (closed-form flows; generic family with a harness-side 3-stage Gauss-Legendre reference flow accurate to 1e-13 and tolerances >= 1e-9) x tolerance 10^[-10,-3] x dt_max = U(0.3,1) cap(tol)/L with cap = 2 tol^(1/5) (RK45, Adams5, BDF6) or tol^(1/3) (RK23, Adams3, BDF2), L = max(Lipschitz constant, forcing frequencies) x dt_min = 1e-7 dt_max (a quarter of the cases 10^[-3,-1] dt_max: the final remainder can fall below the minimum step) x length 1-4 (at most 40000 maximal steps); two fifths of the linear problems start 10^[0,3] times further from their centre (solutions of size up to several hundred; the step cap is then computed from tol / that factor, the bound stays absolute); for linear problems with growing modes the cap also uses tol / (cond |y0-c| e^(mu T)). Oracle: for every consecutive pair of yielded points |y_(n+1) - Phi(t_n, y_n; t_(n+1))|_2 <= {K_RK} tol h + floor (RK, Adams) or {K_BDF} tol + floor (BDF), floor = 64 eps (1 + |y|_1). Non-trivial = path with >= 10 steps of which at least one is below the step cap. Distinct = distinct case JSON.");
+    spec.rule = format!("generated: six adaptive solvers x problem family P (closed-form flows; generic family with a harness-side 3-stage Gauss-Legendre reference flow accurate to 1e-13 and tolerances >= 1e-9) x tolerance 10^[-10,-3] x dt_max = U(0.3,1) cap(tol)/L with cap = 2 tol^(1/5) (RK45, Adams5, BDF6) or tol^(1/3) (RK23, Adams3, BDF2), L = max(Lipschitz constant, forcing frequencies) x dt_min = 1e-7 dt_max (a quarter of the cases 10^[-3,-1] dt_max: the final remainder can fall below the minimum step) x length 1-4 (at most 40000 maximal steps); one case in six on a time axis stretched by 10^[1,3.3] (all rates divided by the factor, start and length multiplied: maximal steps far above 1); two fifths of the linear problems start 10^[0,3] times further from their centre (solutions of size up to several hundred; the step cap is then computed from tol / that factor, the bound stays absolute); for linear problems with growing modes the cap also uses tol / (cond |y0-c| e^(mu T)). Oracle: for every consecutive pair of yielded points |y_(n+1) - Phi(t_n, y_n; t_(n+1))|_2 <= {K_RK} tol h + floor (RK, Adams) or {K_BDF} tol + floor (BDF), floor = 64 eps (1 + |y|_1). Non-trivial = path with >= 10 steps of which at least one is below the step cap. Distinct = distinct case JSON.");
     spec.max_shrink_iters = 200;
     run_spec(spec, opts)
 }
